@@ -251,8 +251,41 @@ def equity_run(item):
         wallet, pl, al = _proj(a, pos, active, flags)
         ev.append({"k": "final", "value": 0, "wallet": wallet, "pos": pl, "active": al, "exact": flags[0], "t": 0, "len": len(fin["daily"]),
                    "series": [sc(x, [True]) for x in fin["daily"]]})
+        ev[-1].update(implied_days(fin["daily"], (out.get("result") or {}).get("metrics") or {}))
         res["ntrades"] = len(fin.get("trades", []))
         res["mtrace"] = report_trace(fin.get("trades", []), (out.get("result") or {}).get("metrics"), bal)
+    return res
+
+
+def implied_days(daily, m):
+    """the number of days the reported annual return / Calmar were annualised over, solved from
+    1 + r = (last / first) ** (365 / days)  (an encoding of the reported number; TLC compares it with the number of
+    daily returns of the series).  ardef / caldef: the relation determines the days (the equity changed, values finite)."""
+    none = {"nan": False, "inf": 0, "n": 0, "d": 1, "close": False, "sign": 0}
+    res = {"ardef": False, "ar": dict(none), "caldef": False, "cal": dict(none)}
+    try:
+        first, last = float(daily[0]), float(daily[-1])
+        if len(daily) < 2 or first <= 0 or last <= 0 or abs(last / first - 1) < 1e-6:
+            return res
+        g = math.log(last / first)
+        ar = float(m.get("annual_return", float("nan")))
+        if ar != ar or abs(ar) == float("inf") or ar <= -99.999999:
+            pass                                                   # the power under- / overflowed: days not recoverable
+        elif ar != 0:
+            res["ardef"], res["ar"] = True, enc(365 * g / math.log1p(ar / 100))
+        else:
+            res["ardef"], res["ar"] = True, enc(0.0)               # reports no growth although the equity changed
+        cal, dd = float(m.get("calmar_ratio", float("nan"))), float(m.get("max_drawdown", float("nan")))
+        if cal == cal and dd == dd and dd < 0 and abs(cal) != float("inf"):
+            c = cal * abs(dd) / 100
+            if c <= -0.99999999:
+                pass
+            elif c != 0:
+                res["caldef"], res["cal"] = True, enc(365 * g / math.log1p(c))
+            else:
+                res["caldef"], res["cal"] = True, enc(0.0)
+    except Exception:
+        pass
     return res
 
 
@@ -512,7 +545,9 @@ def run(ctx):
         "session_start_dates_utc_ms": STARTS,
         "equity_runs_5m": sum(1 for t in etraces if t["hdr"]["tf"] == "5m"), "equity_runs_ending_in_exception": excs, "equity_samples": sum(len(t["ev"]) for t in etraces),
         "equity_samples_with_open_position": open_samples, "equity_samples_with_resting_buys_on_two_symbols": resting_two,
-        "equity_rejected": ebad, "strategy_reads_during_runs": nreads, "equity_exception_kinds": exc_kinds, "model_counterexample_max_drawdown": model_cex,
+        "equity_rejected": ebad,
+        "reports_whose_annualisation_days_were_judged": sum(1 for t in etraces for e in t["ev"] if e["k"] == "final" and e.get("ardef")),
+        "reports_whose_calmar_days_were_judged": sum(1 for t in etraces for e in t["ev"] if e["k"] == "final" and e.get("caldef")), "strategy_reads_during_runs": nreads, "equity_exception_kinds": exc_kinds, "model_counterexample_max_drawdown": model_cex,
         "trace_events_checked_by_tlc": sum(x.generated for x in results) + sum(x.generated for x in res2),
         "samples": samples,
         "rule": "metrics: one case per trade list / balance list; non-trivial = >= 2 trades with mixed signs or a balance-list "
